@@ -184,6 +184,54 @@ def lower_table():
     return _lower_tab
 
 
+_upper_tab = None
+
+
+def upper_table():
+    """same encoding as lower_table() for str.upper() (no context-sensitive rules)"""
+    global _upper_tab
+    if _upper_tab is None:
+        for c in range(128):
+            assert chr(c).upper() == (chr(c - 32) if 97 <= c <= 122 else chr(c))
+        singles, specials = [], []
+        for c in range(128, 0x110000):
+            if 0xD800 <= c <= 0xDFFF:
+                continue
+            s = chr(c)
+            up = s.upper()
+            if up != s:
+                if len(up) == 1:
+                    singles.append((c, ord(up) - c))
+                else:
+                    specials.append((c, [ord(x) for x in up]))
+        ranges, i = [], 0
+        while i < len(singles):
+            c, d = singles[i]
+            best = (1, 1)
+            for stride in (1, 2):
+                j, n = i, 1
+                while j + 1 < len(singles) and singles[j + 1] == (singles[j][0] + stride, d):
+                    j += 1
+                    n += 1
+                if n > best[0]:
+                    best = (n, stride)
+            ranges.append((c, best[0], best[1], d))
+            i += best[0]
+        dec = {}
+        for st, n, stride, d in ranges:
+            for k in range(n):
+                assert st + k * stride not in dec
+                dec[st + k * stride] = [st + k * stride + d]
+        for c, w in specials:
+            dec[c] = w
+        for c in range(128, 0x110000):
+            if 0xD800 <= c <= 0xDFFF:
+                continue
+            assert [ord(x) for x in chr(c).upper()] == dec.get(c, [c]), c
+        _upper_tab = (ranges, specials)
+    return _upper_tab
+
+
 # ------------------------------------------------------------------ SQLite keyword probe
 SQLITE_DOC_KEYWORDS = """ABORT ACTION ADD AFTER ALL ALTER ALWAYS ANALYZE AND AS ASC ATTACH AUTOINCREMENT
 BEFORE BEGIN BETWEEN BY CASCADE CASE CAST CHECK COLLATE COLUMN COMMIT CONFLICT CONSTRAINT CREATE CROSS
